@@ -1,1 +1,6 @@
-//! Reference models and shared scenario types used by the per-property binaries.
+//! Reference models, scenario types and simulators shared by the
+//! per-property binaries.
+pub mod pushmodel;
+pub mod vm;
+pub mod vmgen;
+pub mod vmsim;
